@@ -510,26 +510,26 @@ theorem world_disabled_account_starts_no_flash_loan (c : Ctx) (hd : flag c ACCOU
     a bankrupt or migrated account takes part in nothing -/
 theorem world_tx_disabled_account_is_inert {w w' : WState} {tx : List TOp} (h : w.runTx tx = some w') (i : Nat) :
     (∀ ai bi signer amount upTo, tx[i]? = some (.ix (.deposit ai bi signer amount upTo)) →
-      ∃ (wi : WState) (a : AcctV), wi.accts[ai]? = some a ∧ hasFlag a.flags ACCOUNT_DISABLED = false) ∧
+      ∃ (wi : WState) (a : AcctV), w.before tx i = some wi ∧ wi.accts[ai]? = some a ∧ hasFlag a.flags ACCOUNT_DISABLED = false) ∧
     (∀ ai bi signer amount, tx[i]? = some (.ix (.borrow ai bi signer amount)) →
-      ∃ (wi : WState) (a : AcctV), wi.accts[ai]? = some a ∧ hasFlag a.flags ACCOUNT_DISABLED = false) ∧
+      ∃ (wi : WState) (a : AcctV), w.before tx i = some wi ∧ wi.accts[ai]? = some a ∧ hasFlag a.flags ACCOUNT_DISABLED = false) ∧
     (∀ ai bi signer amount all vault, tx[i]? = some (.ix (.withdraw ai bi signer amount all vault)) →
-      ∃ (wi : WState) (a : AcctV), wi.accts[ai]? = some a ∧ hasFlag a.flags ACCOUNT_DISABLED = false) ∧
+      ∃ (wi : WState) (a : AcctV), w.before tx i = some wi ∧ wi.accts[ai]? = some a ∧ hasFlag a.flags ACCOUNT_DISABLED = false) ∧
     (∀ ai bi signer amount all, tx[i]? = some (.ix (.repay ai bi signer amount all)) →
-      ∃ (wi : WState) (a : AcctV), wi.accts[ai]? = some a ∧ hasFlag a.flags ACCOUNT_DISABLED = false) := by
+      ∃ (wi : WState) (a : AcctV), w.before tx i = some wi ∧ wi.accts[ai]? = some a ∧ hasFlag a.flags ACCOUNT_DISABLED = false) := by
   refine ⟨?_, ?_, ?_, ?_⟩
   · intro ai bi signer amount upTo hi
-    obtain ⟨wi, a, b, o, ha, _, ho⟩ := tx_deposit_ran h hi
-    exact ⟨wi, a, ha, (deposit_ok ho).flags.1⟩
+    obtain ⟨wi, a, b, o, hbef, ha, _, ho⟩ := tx_deposit_ran h hi
+    exact ⟨wi, a, hbef, ha, (deposit_ok ho).flags.1⟩
   · intro ai bi signer amount hi
-    obtain ⟨wi, a, b, o, ha, _, ho⟩ := tx_borrow_ran h hi
-    exact ⟨wi, a, ha, (borrow_ok ho).flags.1⟩
+    obtain ⟨wi, a, b, o, hbef, ha, _, ho⟩ := tx_borrow_ran h hi
+    exact ⟨wi, a, hbef, ha, (borrow_ok ho).flags.1⟩
   · intro ai bi signer amount all vault hi
-    obtain ⟨wi, a, b, o, ha, _, ho⟩ := tx_withdraw_ran h hi
-    exact ⟨wi, a, ha, (withdraw_ok ho).flags⟩
+    obtain ⟨wi, a, b, o, hbef, ha, _, ho⟩ := tx_withdraw_ran h hi
+    exact ⟨wi, a, hbef, ha, (withdraw_ok ho).flags⟩
   · intro ai bi signer amount all hi
-    obtain ⟨wi, a, b, o, ha, _, ho⟩ := tx_repay_ran h hi
-    exact ⟨wi, a, ha, (repay_ok ho).flags⟩
+    obtain ⟨wi, a, b, o, hbef, ha, _, ho⟩ := tx_repay_ran h hi
+    exact ⟨wi, a, hbef, ha, (repay_ok ho).flags⟩
 
 theorem allNone_true : ∀ (s : List Account.Slot), Account.allNone s = .ok true →
     ∀ x ∈ s, x.a < EMPTY_BALANCE_THRESHOLD ∧ x.l < EMPTY_BALANCE_THRESHOLD := by
